@@ -11,6 +11,11 @@ CLAIMED = {
    note="Trusted: Coq kernel; hand-written model of parse_numrange/collation/split/rotate tied by differential runs; std::regex semantics of the one group expression; qpdf's own reader is used to read page lists of outputs. AcroForm fix-up, label remapping and resource pruning are not modelled.",
    technique="Coq proof (refinement of a loop model to a declarative spec) + extracted-model/implementation correspondence",
    design="§5 C12"),
+ "C15": dict(
+   text="Machine-checked proofs (Coq, 22 theorems, closed under the global context) about models of qpdf's pipelines written from Pl_*.cc: any chunking of the input into write() calls gives the same output (ASCIIHex, ASCII85, RunLength both ways, LZW, PNG, TIFF); the ASCIIHex, ASCII85, RunLength, PNG (all five filter types, any bytes-per-pixel) and TIFF-8-bit decoders exactly invert independent reference encoders written from the PDF/PNG/TIFF specifications; qpdf's RunLength, PNG-up, TIFF and Base64 encoders are inverted by reference decoders; BitStream reads MSB-first; RC4 is an involution; the LZW code table and code width stay within 4096 entries / 9..12 bits. Every model is tied to /repo by running the real Pl_* classes from libqpdf.a on the same (parameters, data, chunking) triples as the extracted models, and the extracted reference codecs decide the property on the implementation's side.",
+   note="Trusted: Coq kernel; hand-written models tied by differential runs (exhaustive 1-2 byte inputs, predictor parameter sweep, all chunkings of short inputs); Flate/DCT not modelled; LZW decoder-inverts-encoder and TIFF bit-path inversion are tested against the extracted reference encoder / round trip, not yet proved; provider equality (native/openssl/gnutls) is observed.",
+   technique="Coq proof (codec inversion, chunking independence) + extracted-model/implementation correspondence",
+   design="§5 C15"),
 }
 NOT_YET = "not claimed yet: the Coq model and correspondence for this property have not been built/validated in /verif at this commit (see DESIGN.md §5 for the plan)"
 
